@@ -45,6 +45,10 @@ VARIANTS = [
          old='observed = df_res["observed"].resample(agg).sum()', new='observed = df["observed"].resample(agg).sum()'),
     dict(id="c19-unc-linalg-norm-propagates-nan", property="C19", kind="break", expect_rule="R19.1", file=B,
          old="sum_quad = lambda x: np.sqrt(np.sum(np.square(x)))", new="sum_quad = np.linalg.norm"),
+    dict(id="c19-periods-cut-in-utc", property="C19", kind="break", expect_rule=("R19.2", "R19.3"), file=B,
+         old='            season = df_res["season"].resample(agg).first()\n', new='            tz = df_res.index.tz\n            df_res = df_res.tz_convert(None)\n            season = df_res["season"].resample(agg).first()\n'),
+    dict(id="c19-period-labels-shifted", property="C19", kind="break", expect_rule="R19.2", file=B,
+         old='                axis=1,\n            )\n\n        return df_res', new='                axis=1,\n            ).shift(1, freq="D")\n\n        return df_res'),
     dict(id="c19-benign-rss-spelling", property="C19", kind="benign", file=B,
          old="sum_quad = lambda x: np.sqrt(np.sum(np.square(x)))", new="sum_quad = lambda v: (v ** 2).sum() ** 0.5"),
     dict(id="c19-benign-agg-string", property="C19", kind="benign", file=B,
